@@ -58,6 +58,15 @@ Definition list_items_ok (ordered : bool) (limit : Z) (all xs : list result) : b
       (sorted_descb xs &&
        forallb (fun y => mem_result y xs || forallb (fun x => Z.leb (x_submit y) (x_submit x)) xs) all)).
 
+(* [expected]: the complete answer. Under a cancelled context only a newest-first prefix of it is demanded:
+   every delivered entry belongs to the answer, none twice, newest first, and nothing left out is newer than
+   something delivered *)
+Definition prefix_items_ok (ordered : bool) (expected xs : list result) : bool :=
+  nodupb (map x_id xs) && forallb (fun x => mem_result x expected) xs
+  && (negb ordered ||
+      (sorted_descb xs &&
+       forallb (fun y => mem_result y xs || forallb (fun x => Z.leb (x_submit y) (x_submit x)) xs) expected)).
+
 (* ---- observations of a stream-returning call *)
 Record sobs := {
   o_class : nat;               (* 0: a channel was returned; 1: the call returned an error; 2: it panicked *)
@@ -145,7 +154,9 @@ Inductive step :=
 | TQuery (f : filters) (q : query) (b : binds)          (* cosmosdb: parsed text + parameters of buildSearchQuery *)
 | TListQuery (limit : Z) (q : query) (b : binds)        (* cosmosdb: parsed text + parameters List sends (hook VerifListQuery) *)
 | TExistsFault (r : read_reply) (id : N) (obs : nat)    (* cosmosdb: Exists while every point read is answered r (fake: SetReadItemErr) *)
-| TStreamFault (o : sobs).                              (* cosmosdb: Search / List while every query fails (fake: SetQueryItemsErr) *)
+| TStreamFault (o : sobs)                               (* cosmosdb: Search / List while every query fails (fake: SetQueryItemsErr) *)
+| TSearchCtx (ordered : bool) (f : filters) (o : sobs)  (* Search under a context that is cancelled / expired before or during the call *)
+| TListCtx (ordered : bool) (limit : Z) (o : sobs).     (* List under such a context *)
 
 Record case := { c_backend : backend; c_swarm : N; c_steps : list step }.
 
@@ -180,7 +191,8 @@ Definition agrees_search (ordered : bool) (m o : sobs) : bool :=
     && search_items_ok ordered (o_items m) (o_items o))).
 
 (* what: 1 op result, 2 search item after op, 3 exists, 4 search, 5 list, 6 query text, 7 query evaluation,
-         8 List query text, 9 List query evaluation, 10 Exists under a read fault, 11 stream under a query fault *)
+         8 List query text, 9 List query evaluation, 10 Exists under a read fault, 11 stream under a query fault,
+         12 Search under a done context, 13 List under a done context *)
 Definition fail (kind i what : nat) : list nat := [kind; i; what].
 
 Definition step_check (be : backend) (w : N) (i : nat) (s : cstate) (t : step) : cstate * list nat :=
@@ -240,6 +252,20 @@ Definition step_check (be : backend) (w : N) (i : nat) (s : cstate) (t : step) :
       (s, if Nat.eqb (o_class o) 0 && o_err o && o_closed o && Nat.eqb (length (o_items o)) 0
           then (if agrees_search true m o then [] else fail 1 i 11)
           else fail 2 i 11)
+  | TSearchCtx ordered f o =>
+      (* C15 under a done context: an error, or a stream that is closed (within the harness's bound) whose
+         items are a newest-first prefix of the answer; the call must not panic or hang *)
+      (s, if validate f
+          then (if Nat.eqb (o_class o) 1
+                   || (Nat.eqb (o_class o) 0 && o_closed o && prefix_items_ok ordered (expected_search f (st_sp s)) (o_items o))
+                then [] else fail 2 i 12)
+          else (if Nat.eqb (o_class o) 1 then [] else fail 2 i 12))
+  | TListCtx ordered limit o =>
+      (s, if Nat.eqb (o_class o) 1
+             || (Nat.eqb (o_class o) 0 && o_closed o
+                 && prefix_items_ok ordered (map result_of (st_sp s)) (o_items o)
+                 && (Z.leb limit 0 || Nat.leb (length (o_items o)) (Z.to_nat limit)))
+          then [] else fail 2 i 13)
   | TListQuery limit q b =>
       let (mq, mb) := cs_list_query w limit in
       (s, (if query_eqb q mq && binds_eqb b mb then [] else fail 1 i 8) ++
